@@ -33,6 +33,8 @@ def _case(draw, size=1):
     end = max([end_n] + [m[1] for m in meta])
     spec["pad"] = draw(st.one_of(st.none(), st.none(), st.just(end + draw(st.integers(1, 30)))))
     d = max(end, spec["pad"] or 0)
+    if draw(st.integers(0, 7)) == 0:
+        spec["double"] = draw(st.sampled_from(["self", "fresh"]))     # the material twice: one message object, two positions
     interesting = sorted({t for t in ticks_pool + [m[1] for m in meta] + [d] if t > 0})
     k = draw(st.integers(1, 5))
     pick = st.one_of(st.sampled_from(interesting), st.integers(1, d + 20)) if interesting else st.integers(1, d + 20)
